@@ -217,7 +217,7 @@ func windowAlts() []mutation {
 	return []mutation{
 		w("+32,+32", 32, 32), w("+33,+33", 33, 33), w("+32,+33", 32, 33), w("+33,+34", 33, 34), w("+31,+32", 31, 32),
 		w("-1,-1", -1, -1), w("-1,0", -1, 0), w("0,+1", 0, 1), w("+8,+8", 8, 8), w("+15,+15", 15, 15), w("+16,+16", 16, 16),
-		w("+20,+20", 20, 20), w("-2,-1", -2, -1),
+		w("+20,+20", 20, 20), w("-2,-1", -2, -1), w("+40,+40", 40, 40), w("+63,+63", 63, 63), w("+64,+64", 64, 64),
 		m("window:min>max", rel("min", "slot", 5), rel("max", "slot", 0)),
 	}
 }
@@ -261,6 +261,10 @@ func attFamily(o hreg.Opts) *family {
 	for _, sl := range []uint64{24, 29, 15} {
 		f.bases = append(f.bases, attBase("b", sl, 0, int(sl)))
 	}
+	// SLOTS_PER_EPOCH = 32: epoch 2 = slots 64..95
+	for _, sl := range []uint64{64, 77, 95, 40} {
+		f.bases = append(f.bases, attBase("m", sl, 0, int(sl)))
+	}
 	bitsAlts := []mutation{
 		m("bits:none", set("bits", "-")),
 		m("bits:two", func(k *kvs) { k.setL("bits", []uint64{0, k.u("bitlen") - 1}) }),
@@ -299,7 +303,12 @@ func attFamily(o hreg.Opts) *family {
 		{"dom", []mutation{m("domain-err", set("dom", "0"))}},
 		{"sig", append(sigAlts("sigk"), m("signer=other-member", func(k *kvs) { k.setU("signer", otherMember(k)) }),
 			m("signer=outsider", func(k *kvs) { k.setU("signer", uint64(mustCtx(k).def.validators)) }))},
-		{"fork", []mutation{m("fork=deneb", set("fork", "deneb"))}},
+		{"fork", []mutation{m("fork=deneb", set("fork", "deneb")),
+			m("fork=deneb,window+20", set("fork", "deneb"), rel("min", "slot", 20), rel("max", "slot", 20)),
+			m("fork=deneb,window+33", set("fork", "deneb"), rel("min", "slot", 33), rel("max", "slot", 33)),
+			m("fork=deneb,window+40", set("fork", "deneb"), rel("min", "slot", 40), rel("max", "slot", 40)),
+			m("fork=deneb,window+63", set("fork", "deneb"), rel("min", "slot", 63), rel("max", "slot", 63)),
+			m("fork=deneb,window+64", set("fork", "deneb"), rel("min", "slot", 64), rel("max", "slot", 64))}},
 	}, chainAlts(true)...)
 	return f
 }
@@ -391,6 +400,7 @@ func aggFamily(o hreg.Opts) *family {
 		}
 	}
 	f.bases = append(f.bases, aggBase("b", 13, 0, []uint64{0, 1, 2, 3, 4, 5, 6, 7, 8, 9, 10, 31}))
+	f.bases = append(f.bases, aggBase("m", 70, 0, []uint64{0, 1}))
 	notSelected := func(k *kvs) {
 		c := mustCtx(k)
 		p := attCommon(k)
@@ -442,7 +452,12 @@ func aggFamily(o hreg.Opts) *family {
 		{"outer", sigAlts("osigk")},
 		{"aggsig", asig("wrongkey", "missing", "wrongmsg", "wrongdomain", "garbage", "infinity", "zero")},
 		{"state", []mutation{m("state-err", set("state", "0"))}},
-		{"fork", []mutation{m("fork=deneb", set("fork", "deneb"))}},
+		{"fork", []mutation{m("fork=deneb", set("fork", "deneb")),
+			m("fork=deneb,window+20", set("fork", "deneb"), rel("min", "slot", 20), rel("max", "slot", 20)),
+			m("fork=deneb,window+33", set("fork", "deneb"), rel("min", "slot", 33), rel("max", "slot", 33)),
+			m("fork=deneb,window+40", set("fork", "deneb"), rel("min", "slot", 40), rel("max", "slot", 40)),
+			m("fork=deneb,window+63", set("fork", "deneb"), rel("min", "slot", 63), rel("max", "slot", 63)),
+			m("fork=deneb,window+64", set("fork", "deneb"), rel("min", "slot", 64), rel("max", "slot", 64))}},
 	}, chainAlts(false)...)
 	return f
 }
